@@ -1,51 +1,7 @@
 package center
 
-// White-box accessors for the C18 correspondence harness.  This file is NOT part
-// of /repo: it is mapped into the package directory at build time only
-// (go test -overlay=.../overlay.json).  Read-only, except VerifUpdate which calls
-// the periodic update the 1 s timer of PlayerMgr.Start would call.
-
-type VerifPlayer struct {
-	Present   bool
-	State     int
-	StTimeout int64
-	Lock      bool
-	Reason    int
-	LkTimeout int64
-	Front     string
-	Net       uint32
-	Logic     string
-}
-
-type VerifTask struct {
-	Present bool
-	Front   string
-	Net     uint32
-	Start   int64
-}
-
-func (m *PlayerMgr) VerifPlayer(uid int64) VerifPlayer {
-	p := m.players[uid]
-	if p == nil {
-		return VerifPlayer{}
-	}
-	return VerifPlayer{Present: true, State: p.GetState(), StTimeout: p.state.VerifTimeout(),
-		Lock: p.lock.lock, Reason: p.lock.reason, LkTimeout: p.lock.timeout,
-		Front: p.FrontId, Net: p.NetId, Logic: p.logicId}
-}
-
-func (m *PlayerMgr) VerifTask(uid int64) VerifTask {
-	t := m.kickWaitMgr.tasks[uid]
-	if t == nil {
-		return VerifTask{}
-	}
-	return VerifTask{Present: true, Front: t.frontId, Net: t.netId, Start: t.startTime}
-}
-
-func (m *PlayerMgr) VerifCounts() (players int, tasks int) {
-	return len(m.players), len(m.kickWaitMgr.tasks)
-}
-
-func (m *PlayerMgr) VerifNextCheck() int64 { return m.kickWaitMgr.nextCheckExpired }
-
+// The one thing the C18 harness cannot reach from outside the package: the periodic update that
+// the 1 s timer of PlayerMgr.Start calls.  This file is NOT part of /repo; it is mapped into the package
+// directory at build time only (go test -overlay=.../overlay.json).  Everything else the harness observes
+// is read through exported API or located by type/shape with reflect (see harness/c18/c18_test.go).
 func (m *PlayerMgr) VerifUpdate() { m.update() }
